@@ -41,6 +41,7 @@ type HistConfig struct {
 	PClock         float64 // an edit whose file clock is kept, far in the past or in the future; same-size edit motif
 	PProtect       float64 // generated files of a package become read-only, or get clocks from the future / the past
 	Cgo            bool    // one package gets a file that imports "C"
+	PReuse         float64 // two runs on one executor (loaded once): the second with other generators or a muted one
 	TwoModules     bool    // a second local module (replace directive or go.work), imported by the main one; entrypoints in the main module
 }
 
@@ -398,6 +399,43 @@ func DrawHistory(r *Rng, cfg HistConfig) (*Scenario, *histWorld) {
 			again := *mid
 			again.Fresh = false
 			ops = append(ops, Op{Kind: "touch", K: pi, Path: f, SameSize: true}, Op{Kind: "run", Run: mid}, Op{Kind: "run", Run: &again}, Op{Kind: "touch", K: pi, Path: f, SameSize: true, MTime: "keep"})
+		case r.P(cfg.PReuse):
+			// a tool that loads once and calls Execute twice: after a failure, with fewer generators, or
+			// with a generator that has nothing to say any more
+			run1 := w.drawRun(r, cfg)
+			run1.HasFirstGlobals, run1.FirstGlobals, run1.FirstGens = false, nil, nil
+			run1.KeepExecutor = true
+			if faulty < 2 && r.P(0.4) {
+				w.injectFault(r, run1, "gen")
+				for k := range run1.Faults {
+					if run1.Faults[k].Do == "gen-panic" {
+						run1.Faults[k].Do = "gen-error" // (the process has to survive)
+					}
+				}
+				faulty++
+			}
+			run2 := *run1
+			run2.Faults, run2.Fresh, run2.GoMaxProcs = nil, false, 0
+			run2.KeepExecutor, run2.ReuseExecutor = r.P(0.3), true
+			run2.Sched = drawSched(r)
+			gens2 := append([]proto.GenScript{}, run1.Gens...)
+			switch r.Intn(3) {
+			case 0:
+				if len(gens2) > 2 {
+					k := r.Range(1, len(gens2)-1)
+					gens2 = append(gens2[:k:k], gens2[k+1:]...)
+				}
+			case 1:
+				gi := r.Range(1, len(gens2)-1)
+				if isScripted(&gens2[gi]) {
+					gens2[gi] = muteGen(r, w.m, gens2[gi], r.Intn(len(w.m.Pkgs)))
+				}
+			}
+			run2.Gens = gens2
+			if run2.Args.All {
+				run2.Args.Force = true // (the kept executor compares hashes from before the first call)
+			}
+			ops = append(ops, Op{Kind: "run", Run: run1}, Op{Kind: "run", Run: &run2})
 		case r.P(cfg.PProtect):
 			pi := r.Intn(len(m.Pkgs))
 			var follow *Op
@@ -604,7 +642,7 @@ func SimC06(c *CheckCtx, i int, r *Rng) error {
 	if cgo {
 		c.Env.Stats.Add("probe/cgo-world", 1)
 	}
-	return runHistory(c, i, r, HistConfig{Cgo: cgo, MinOps: 1, MaxOps: 4, PAll: 0.6, PForce: 0.5, PGlobals: 0.5, PSubsetGens: 0.2, PEdit: 0.1, PRetag: 0.3, PCancel: 0.15, PWarm: 0.05, PTwoPasses: 0.25, PGenFault: 0.15, PProtect: 0.12})
+	return runHistory(c, i, r, HistConfig{Cgo: cgo, MinOps: 1, MaxOps: 4, PAll: 0.6, PForce: 0.5, PGlobals: 0.5, PSubsetGens: 0.2, PEdit: 0.1, PRetag: 0.3, PCancel: 0.15, PWarm: 0.05, PTwoPasses: 0.25, PGenFault: 0.15, PProtect: 0.12, PReuse: 0.12})
 }
 
 // SimC07: gengo only touches its own output files.
@@ -618,7 +656,7 @@ func SimC07(c *CheckCtx, i int, r *Rng) error {
 		c.Env.Stats.Add("probe/two-module-world", 1)
 	}
 	return runHistory(c, i, r, HistConfig{TwoModules: two, MinOps: 3, MaxOps: 7, PAll: 0.6, PForce: 0.3, PGlobals: 0.2, PSubsetGens: 0.5, PEdit: 0.15, PStale: 0.25,
-		PSumOps: 0.05, PBreak: 0.08, PGenFault: 0.12, PIOFault: 0.12, PKill: 0.1, PConverge: 0.2, PMute: 0.35, PDepOutside: 0.5, PReal: 0.1, PUniform: 0.3, PCancel: 0.05, PWarm: 0.1, PLinkOut: 0.1, PCwd: 0.2, PClock: 0.1, PProtect: 0.08})
+		PSumOps: 0.05, PBreak: 0.08, PGenFault: 0.12, PIOFault: 0.12, PKill: 0.1, PConverge: 0.2, PMute: 0.35, PDepOutside: 0.5, PReal: 0.1, PUniform: 0.3, PCancel: 0.05, PWarm: 0.1, PLinkOut: 0.1, PCwd: 0.2, PClock: 0.1, PProtect: 0.08, PReuse: 0.15})
 }
 
 // SimC08: the gengo.sum cache against the reference model.
